@@ -9,6 +9,7 @@ HMAC-SHA1 / AES-GCM functions the driver runs (`RtcModel/SrtpConcrete.lean`).
 import RtcModel.Srtp
 import RtcModel.Lemmas.SrtpRoc
 import RtcModel.Lemmas.SrtpHeader
+import RtcModel.Lemmas.Srtp
 
 namespace RtcModel.Theorems.C04
 open RtcModel.Srtp RtcModel.C04 RtcModel.Generated
@@ -188,6 +189,124 @@ theorem header_parse_write (h : Hdr) (p : Bool) (body : Bytes) (wf : h.WF) :
     parseHdr (writeHdr h p ++ body) = .ok (h, p, body) := parseHdr_writeHdr h p body wf
 
 example : Hdr.WF ⟨true, 96, 65535, 7, 0xdeadbeef, [1, 2], some ⟨0xBEDE, [1, 2, 3, 4]⟩⟩ := by
+  constructor <;> simp <;> decide
+
+/-! ### Round trip, from the suite laws only -/
+
+/-- what the two ends must share: SSRC, profile and the derived session keys (rollover state,
+SRTCP index and timestamps are free) -/
+structure Paired (cs cr : Ctx) : Prop where
+  ssrc : cr.ssrc = cs.ssrc
+  profile : cr.profile = cs.profile
+  rtp : cr.rtp = cs.rtp
+  rtcp : cr.rtcp = cs.rtcp
+
+/-- **unprotect_protect_rtp**: for every cipher suite satisfying the structural laws, every profile,
+every well-formed packet (0–15 CSRCs, optional extension, padding 0–255, any payload length) and every
+pair of contexts sharing the session keys whose rollover estimates for this sequence number agree
+("synchronised index", see `index_sync`): `protect` succeeds, its output has the `protected_rtp_len`
+length, the receiver's header parser recovers header and padding bit, and `unprotect` returns
+exactly the original packet. -/
+theorem unprotect_protect_rtp (S : Suite) (cs cr : Ctx) (p : Pkt) (wf : p.WF) (hpair : Paired cs cr)
+    (hsync : cr.estimate p.hdr.seq = cs.estimate p.hdr.seq) :
+    ∃ wire body, (cs.protectRtp S p).1 = .ok wire ∧
+      wire.length = protectedRtpLen cs.profile p ∧
+      parseHdr wire = .ok (p.hdr, decide (p.padLen ≠ 0), body) ∧
+      (cr.unprotectRtp S p.hdr (p.padLen ≠ 0) body).1 = .ok p := by
+  refine ⟨writeHdr p.hdr (p.padLen ≠ 0) ++ rtpWireBody S cs p (cs.estimate p.hdr.seq),
+    rtpWireBody S cs p (cs.estimate p.hdr.seq), ?_, ?_, ?_, ?_⟩
+  · rw [protectRtp_eq S cs p (validHdr_of_WF _ wf.hdr)]
+  · simp only [List.length_append, writeHdr_length, rtpWireBody_length, protectedRtpLen]; omega
+  · exact parseHdr_writeHdr _ _ _ wf.hdr
+  · rw [← hsync, unprotect_wireBody S cs cr p wf hpair.ssrc hpair.profile hpair.rtp]
+
+/-- after the round trip both ends hold the same rollover state whenever they did before -/
+theorem roundtrip_keeps_sync (S : Suite) (cs cr : Ctx) (p : Pkt) (wf : p.WF) (hpair : Paired cs cr)
+    (hroc : cr.roc = cs.roc) (hlast : cr.last = cs.last) :
+    let body := rtpWireBody S cs p (cs.estimate p.hdr.seq)
+    (cr.unprotectRtp S p.hdr (p.padLen ≠ 0) body).2.roc = (cs.protectRtp S p).2.roc ∧
+    (cr.unprotectRtp S p.hdr (p.padLen ≠ 0) body).2.last = (cs.protectRtp S p).2.last := by
+  have hsync : cr.estimate p.hdr.seq = cs.estimate p.hdr.seq := by simp [Ctx.estimate, hroc, hlast]
+  intro body
+  simp only [body]
+  rw [← hsync, unprotect_wireBody S cs cr p wf hpair.ssrc hpair.profile hpair.rtp,
+    protectRtp_eq S cs p (validHdr_of_WF _ wf.hdr)]
+  simp [Ctx.updated, hroc, hlast, hsync]
+
+/-- **protected_len**: the length formula of `protected_rtp_len`, and for RTCP `len + 4 + tag`. -/
+theorem protected_len (S : Suite) (c : Ctx) (p : Pkt) (pkt : Bytes) (index : Nat) (wf : p.WF)
+    (hlen : 8 ≤ pkt.length) :
+    (∀ wire, (c.protectRtp S p).1 = .ok wire →
+      wire.length = encodedLen p.hdr + p.payload.length + p.padLen + c.profile.tagLen) ∧
+    (rtcpWire S c pkt index).length = pkt.length + 4 + c.profile.rtcpTagLen := by
+  constructor
+  · intro wire hw
+    rw [protectRtp_eq S c p (validHdr_of_WF _ wf.hdr)] at hw
+    simp only [Except.ok.injEq] at hw
+    subst hw
+    simp only [List.length_append, writeHdr_length, rtpWireBody_length]; omega
+  · unfold rtcpWire
+    by_cases hg : c.profile = .gcm
+    · have ht : (pkt.take 8).length = 8 := by simp [List.length_take]; omega
+      simp only [hg, if_true, List.length_append, ht, S.seal_len, be32_length, List.length_drop,
+        rtcpTagLen_gcm]
+      omega
+    · simp only [hg, if_false, List.length_append, be32_length, rtcpTag_length S c _ hg]
+      split
+      · rw [rtcpCipher_length S c index pkt hlen]
+      · rfl
+
+/-- **unprotect_protect_rtcp**: `protect_rtcp` uses the next SRTCP index, sets the E bit, and a
+paired context recovers exactly the original packet — every profile, every packet of at least the
+8-byte RTCP header, every index below 2^31; the receiver never needs to be in sync (the index is
+carried in the packet). -/
+theorem unprotect_protect_rtcp (S : Suite) (cs cr : Ctx) (pkt : Bytes) (hpair : Paired cs cr)
+    (hlen : 8 ≤ pkt.length) (hidx : cs.rtcpIndex + 1 < 2 ^ 31) :
+    ∃ wire, (cs.protectRtcp S pkt).1 = .ok wire ∧ (cs.protectRtcp S pkt).2.rtcpIndex = cs.rtcpIndex + 1 ∧
+      (cr.unprotectRtcp S wire).1 = .ok pkt := by
+  have hmod : (cs.rtcpIndex + 1) % 4294967296 = cs.rtcpIndex + 1 := by
+    apply Nat.mod_eq_of_lt; simp at hidx; omega
+  refine ⟨rtcpWire S cs pkt (cs.rtcpIndex + 1), ?_, ?_, ?_⟩
+  · rw [protectRtcp_eq, hmod]
+  · rw [protectRtcp_eq, hmod]
+  · rw [unprotect_rtcpWire S cs cr pkt _ hlen (by simpa using hidx) hpair.ssrc hpair.profile hpair.rtcp]
+
+/-- **E-bit and index layout** of a protected RTCP packet: the 32-bit word `E ‖ index` sits right
+before the tag (AES-CM/NULL) resp. at the very end (AEAD), with `E = 1`. -/
+theorem srtcp_index_layout (S : Suite) (c : Ctx) (pkt : Bytes) (index : Nat) (hidx : index < 2 ^ 31)
+    (hlen : 8 ≤ pkt.length) :
+    let wire := rtcpWire S c pkt index
+    (c.profile = .gcm → last4 wire = index + 2 ^ 31) ∧
+    (c.profile ≠ .gcm → last4 (wire.take (wire.length - c.profile.rtcpTagLen)) = index + 2 ^ 31) := by
+  have hw : withEBit index = index + 2147483648 := by
+    have : index < 2147483648 := by simpa using hidx
+    simp [withEBit, this]
+  have hlt : index + 2147483648 < 4294967296 := by simp at hidx; omega
+  intro wire
+  constructor
+  · intro hg
+    simp only [wire, rtcpWire, hg, if_true, hw]
+    exact last4_append_be32 _ _ hlt
+  · intro hg
+    simp only [wire, rtcpWire, hg, if_false, hw]
+    rw [List.length_append, rtcpTag_length S c _ hg, Nat.add_sub_cancel, List.take_left' rfl]
+    exact last4_append_be32 _ _ hlt
+
+/-- non-vacuity of `Paired`/`WF`: two contexts created from the same keying material are paired;
+a packet with CSRCs, an extension and padding is well-formed -/
+example (S : Suite) (mk ms : Bytes) (cs cr : Ctx)
+    (h1 : Ctx.new S 7 .cm80 mk ms 0 = .ok cs) (h2 : Ctx.new S 7 .cm80 mk ms 5 = .ok cr) : Paired cs cr := by
+  simp only [Ctx.new] at h1 h2
+  split at h1
+  · simp at h1
+  · rename_i h
+    rw [if_neg h] at h2
+    simp only [Except.ok.injEq] at h1 h2
+    subst h1; subst h2
+    exact ⟨rfl, rfl, rfl, rfl⟩
+
+example : Pkt.WF ⟨⟨true, 96, 65535, 7, 0xdeadbeef, [1, 2], some ⟨0xBEDE, [1, 2, 3, 4]⟩⟩, [9, 9, 9], 4⟩ := by
+  refine ⟨?_, by decide⟩
   constructor <;> simp <;> decide
 
 end RtcModel.Theorems.C04
